@@ -403,3 +403,282 @@ package semver
 //@   requires 0 <= i && i < len(vs) && 0 <= j && j < len(vs)
 //@   ensures result == (CMP(vs[i], vs[j]) < 0 || (CMP(vs[i], vs[j]) == 0 && vs[i] < vs[j]))
 //@   props C04
+
+//@ # ---------- positions of the parts inside a version string (used by package module, C18) ----------
+//@ lemma digend_shift(s string, a int, p int)
+//@   requires 0 <= a && 0 <= p && a + p <= len(s)
+//@   ensures digend(s[a:], p) + a == digend(s, a + p)
+//@   induction len(s) - a - p
+//@   trigger digend(s[a:], p)
+//@   props C18
+
+//@ lemma firstplus_shift(s string, a int, p int)
+//@   requires 0 <= a && 0 <= p && a + p <= len(s)
+//@   ensures firstplus(s[a:], p) + a == firstplus(s, a + p)
+//@   induction len(s) - a - p
+//@   trigger firstplus(s[a:], p)
+//@   props C18
+
+//@ spec func NOPLUS(s string, a int, b int) bool = forall k int :: a <= k && k < b ==> s[k] != '+'
+
+//@ lemma firstplus_skip(s string, a int, b int)
+//@   requires 0 <= a && a <= b && b <= len(s) && NOPLUS(s, a, b)
+//@   ensures firstplus(s, a) == firstplus(s, b)
+//@   induction b - a
+//@   trigger firstplus(s, a), firstplus(s, b)
+//@   props C18
+
+//@ lemma firstplus_past(s string, c int)
+//@   requires 0 <= c && c < len(s) && NOPLUS(s, 0, c) && s[c] != '+'
+//@   ensures firstplus(s, 0) == firstplus(s, c + 1)
+//@   uses firstplus_skip
+//@   hint firstplus(s, c)
+//@   trigger firstplus(s, c + 1), NOPLUS(s, 0, c)
+//@   props C18
+
+//@ lemma firstplus_here(s string, c int)
+//@   requires 0 <= c && c <= len(s) && NOPLUS(s, 0, c) && (c == len(s) || s[c] == '+')
+//@   ensures firstplus(s, 0) == c
+//@   uses firstplus_skip
+//@   hint firstplus(s, c)
+//@   trigger firstplus(s, 0), NOPLUS(s, 0, c)
+//@   props C18
+
+//@ # PA, PB, PC: ends of the major, minor and patch numbers
+//@ spec opaque func PA(v string) int = digend(v, 1)
+//@ spec opaque func PB(v string) int = digend(v, PA(v) + 1)
+//@ spec opaque func PC(v string) int = digend(v, PB(v) + 1)
+
+//@ lemma pos_major(v string)
+//@   requires len(v) > 0
+//@   ensures 1 <= PA(v) && PA(v) <= len(v) && R1(v) == v[PA(v):] && MAJ(v) == v[1:PA(v)]
+//@   uses digend_shift digend_bounds
+//@   trigger PA(v)
+//@   props C18
+
+//@ lemma pos_minor(v string)
+//@   requires len(v) > 0 && PA(v) < len(v)
+//@   ensures S2(v) == v[PA(v)+1:]
+//@   ensures PA(v) + 1 <= PB(v) && PB(v) <= len(v) && digend(S2(v), 0) + PA(v) + 1 == PB(v)
+//@   ensures R2(v) == v[PB(v):]
+//@   ensures NUMT(S2(v)) == v[PA(v)+1:PB(v)]
+//@   uses pos_major digend_shift digend_bounds
+//@   trigger PB(v)
+//@   props C18
+
+//@ lemma pos_patch(v string)
+//@   requires len(v) > 0 && PA(v) < len(v) && PB(v) < len(v)
+//@   ensures S3(v) == v[PB(v)+1:]
+//@   ensures PB(v) + 1 <= PC(v) && PC(v) <= len(v) && digend(S3(v), 0) + PB(v) + 1 == PC(v)
+//@   ensures R3(v) == v[PC(v):]
+//@   ensures NUMT(S3(v)) == v[PB(v)+1:PC(v)]
+//@   uses pos_major pos_minor digend_shift digend_bounds
+//@   hint PA(v)
+//@   hint PB(v)
+//@   trigger PC(v)
+//@   props C18
+
+//@ # no '+' before the end of the patch number
+//@ lemma noplus_numbers(v string)
+//@   requires VALID(v)
+//@   ensures R1(v) == "" ==> NOPLUS(v, 0, len(v))
+//@   ensures R1(v) != "" && R2(v) == "" ==> NOPLUS(v, 0, len(v))
+//@   ensures FULL(v) ==> NOPLUS(v, 0, PC(v))
+//@   uses pos_major pos_minor pos_patch digend_bounds
+//@   hint PA(v)
+//@   hint PB(v)
+//@   hint PC(v)
+//@   trigger VALID(v), NOPLUS(v, 0, len(v))
+//@   trigger VALID(v), PC(v)
+//@   props C18
+
+//@ # the build metadata of a valid version is everything from its first '+'
+//@ lemma bld_tail_short(v string)
+//@   requires VALID(v) && !FULL(v)
+//@   ensures firstplus(v, 0) == len(v) && BLD(v) == ""
+//@   uses noplus_numbers firstplus_skip
+//@   hint NOPLUS(v, 0, len(v))
+//@   hint firstplus(v, len(v))
+//@   trigger VALID(v), firstplus(v, 0)
+//@   props C18
+
+//@ lemma bld_tail_nopre(v string)
+//@   requires VALID(v) && FULL(v) && !HASPRE(v)
+//@   ensures firstplus(v, 0) == PC(v)
+//@   ensures BLD(v) == v[PC(v):]
+//@   uses noplus_numbers firstplus_here pos_major pos_minor pos_patch
+//@   hint NOPLUS(v, 0, PC(v))
+//@   hint firstplus(v, 0)
+//@   trigger VALID(v), PC(v)
+//@   props C18
+
+//@ lemma pre_facts(v string)
+//@   requires VALID(v) && HASPRE(v)
+//@   ensures 0 <= PC(v) && PC(v) < len(v) && v[PC(v)] == '-' && R3(v) == v[PC(v):] && NOPLUS(v, 0, PC(v))
+//@   uses noplus_numbers pos_major pos_minor pos_patch
+//@   trigger VALID(v), PC(v)
+//@   props C18
+
+//@ # a string whose first '+' cannot come before position c, where a '-' stands
+//@ lemma dash_tail(s string, c int)
+//@   requires 0 <= c && c < len(s) && s[c] == '-' && NOPLUS(s, 0, c)
+//@   ensures firstplus(s, 0) == firstplus(s, c + 1)
+//@   ensures firstplus(s[c:], 1) + c == firstplus(s, c + 1)
+//@   ensures c < firstplus(s, c + 1) && firstplus(s, c + 1) <= len(s)
+//@   ensures s[c:][firstplus(s[c:], 1):] == s[firstplus(s, c + 1):]
+//@   ensures s[c:][:firstplus(s[c:], 1)] == s[c:firstplus(s, c + 1)]
+//@   uses firstplus_past firstplus_shift firstplus_bounds
+//@   hint firstplus(s, c + 1)
+//@   trigger firstplus(s[c:], 1), NOPLUS(s, 0, c)
+//@   props C18
+
+//@ lemma bld_tail_pre(v string)
+//@   requires VALID(v) && HASPRE(v)
+//@   ensures firstplus(v, 0) == firstplus(v, PC(v) + 1)
+//@   ensures BLD(v) == v[firstplus(v, PC(v) + 1):]
+//@   ensures PRE(v) == v[PC(v):firstplus(v, PC(v) + 1)]
+//@   ensures PC(v) < firstplus(v, PC(v) + 1) && v[PC(v)] == '-'
+//@   uses pre_facts dash_tail firstplus_bounds
+//@   hint firstplus(v[PC(v):], 1)
+//@   trigger VALID(v), PC(v)
+//@   props C18
+
+//@ lemma bld_tail(v string)
+//@   requires VALID(v)
+//@   ensures BLD(v) == v[firstplus(v, 0):]
+//@   uses bld_tail_short bld_tail_nopre bld_tail_pre
+//@   hint PC(v)
+//@   trigger VALID(v), BLD(v)
+//@   props C18
+
+//@ # digit runs of a prefix: the run ends where it ends in the whole string, or at the cut
+//@ lemma digend_prefix(s string, n int, a int)
+//@   requires 0 <= a && a <= n && n <= len(s)
+//@   ensures digend(s[:n], a) == (if digend(s, a) < n then digend(s, a) else n)
+//@   induction n - a
+//@   uses digend_bounds
+//@   trigger digend(s[:n], a)
+//@   props C18
+
+//@ # a prefix that reaches beyond the patch number has the same number positions
+//@ lemma pos_prefix(v string, n int)
+//@   requires 1 <= n && n <= len(v) && PA(v) < n
+//@   ensures PA(v[:n]) == PA(v)
+//@   ensures PB(v) < n ==> PB(v[:n]) == PB(v)
+//@   ensures PB(v) < n && PC(v) < n ==> PC(v[:n]) == PC(v)
+//@   ensures PB(v) < n && PC(v) >= n ==> PC(v[:n]) == n
+//@   uses digend_prefix digend_bounds
+//@   hint PA(v[:n])
+//@   hint PB(v[:n])
+//@   hint PC(v[:n])
+//@   hint PB(v)
+//@   hint PC(v)
+//@   trigger PA(v[:n])
+//@   props C18
+
+//@ # a valid version without '+' has no build metadata, and its prerelease is everything after the patch number
+//@ lemma noplus_pre(b string)
+//@   requires VALID(b) && NOPLUS(b, 0, len(b)) && PRE(b) != ""
+//@   ensures PRE(b) == b[PC(b):] && BLD(b) == "" && FULL(b)
+//@   ensures 1 < PA(b) && PA(b) + 1 < PB(b) && PB(b) + 1 < PC(b) && PC(b) < len(b) && b[PA(b)] == '.' && b[PB(b)] == '.' && b[PC(b)] == '-'
+//@   ensures alldig(b, PB(b) + 1, PC(b))
+//@   uses bld_tail_pre firstplus_skip firstplus_bounds pos_major pos_minor pos_patch digend_bounds
+//@   hint PC(b)
+//@   hint PB(b)
+//@   hint PA(b)
+//@   hint firstplus(b, PC(b) + 1)
+//@   hint firstplus(b, len(b))
+//@   trigger VALID(b), PC(b)
+//@   props C18
+
+//@ # cutting a valid version inside its prerelease, right before a dot, leaves a valid version whose prerelease is the part kept
+//@ lemma idseq_cut(s string, a int, e int, n int, numeric bool)
+//@   requires 0 <= a && a < n && n < e && e <= len(s) && s[n] == '.' && idseq(s, a, e, numeric)
+//@   ensures idseq(s, a, n, numeric)
+//@   trigger idseq(s, a, e, numeric), idseq(s, a, n, numeric)
+//@   props C18
+
+//@ lemma idseq_shift(s string, c int, a int, e int, numeric bool)
+//@   requires 0 <= c && 0 <= a && a <= e && c + e <= len(s)
+//@   ensures idseq(s[c:], a, e, numeric) == idseq(s, c + a, c + e, numeric)
+//@   uses alldig_sub
+//@   trigger idseq(s[c:], a, e, numeric)
+//@   props C18
+
+//@ # the grammar, stated by positions in v instead of nested remainders
+//@ spec opaque func TAILPOS(v string, c int) bool =
+//@     if c < len(v) && v[c] == '-'
+//@     then idseq(v, c + 1, firstplus(v, c + 1), true) && (firstplus(v, c + 1) == len(v) || idseq(v, firstplus(v, c + 1) + 1, len(v), false))
+//@     else (c == len(v) || (v[c] == '+' && idseq(v, c + 1, len(v), false)))
+//@ spec opaque func VPOS(v string) bool =
+//@     len(v) > 0 && v[0] == 'v' && numok(v, 1, PA(v))
+//@     && (PA(v) == len(v) || (v[PA(v)] == '.' && numok(v, PA(v) + 1, PB(v))
+//@         && (PB(v) == len(v) || (v[PB(v)] == '.' && numok(v, PB(v) + 1, PC(v)) && TAILPOS(v, PC(v))))))
+
+//@ lemma tail_pos(s string, c int)
+//@   requires 0 <= c && c <= len(s)
+//@   ensures TAIL(s[c:]) == TAILPOS(s, c)
+//@   uses idseq_shift firstplus_shift firstplus_bounds
+//@   hint firstplus(s[c:], 1)
+//@   hint firstplus(s, c + 1)
+//@   trigger TAILPOS(s, c)
+//@   props C18
+
+//@ lemma valid_pos_a(v string)
+//@   requires VALID(v)
+//@   ensures VPOS(v)
+//@   uses pos_major pos_minor pos_patch tail_pos digend_bounds
+//@   hint PA(v)
+//@   hint PB(v)
+//@   hint PC(v)
+//@   hint TAILPOS(v, PC(v))
+//@   trigger VALID(v), VPOS(v)
+//@   props C18
+
+//@ lemma valid_pos_b(v string)
+//@   requires VPOS(v)
+//@   ensures VALID(v)
+//@   uses pos_major pos_minor pos_patch tail_pos digend_bounds
+//@   hint PA(v)
+//@   hint PB(v)
+//@   hint PC(v)
+//@   hint TAILPOS(v, PC(v))
+//@   trigger VALID(v), VPOS(v)
+//@   props C18
+
+//@ lemma firstplus_prefix(s string, n int, a int)
+//@   requires 0 <= a && a <= n && n <= len(s)
+//@   ensures firstplus(s[:n], a) == (if firstplus(s, a) < n then firstplus(s, a) else n)
+//@   induction n - a
+//@   uses firstplus_bounds
+//@   trigger firstplus(s[:n], a)
+//@   props C18
+
+//@ lemma idseq_prefix2(s string, a int, e int, numeric bool)
+//@   requires 0 <= a && a <= e && e <= len(s)
+//@   ensures idseq(s[:e], a, e, numeric) == idseq(s, a, e, numeric)
+//@   uses alldig_prefix
+//@   trigger idseq(s[:e], a, e, numeric)
+//@   props C18
+
+//@ lemma valid_cut(v string, n int)
+//@   requires VALID(v) && 0 <= PC(v) && PC(v) < len(v) && v[PC(v)] == '-' && PC(v) + 1 < n && n < firstplus(v, PC(v) + 1) && v[n] == '.'
+//@   ensures VALID(v[:n])
+//@   ensures PC(v[:n]) == PC(v) && PB(v[:n]) == PB(v) && PA(v[:n]) == PA(v)
+//@   ensures NOPLUS(v[:n], 0, n) && HASPRE(v[:n]) && firstplus(v[:n], PC(v) + 1) == n
+//@   ensures PRE(v[:n]) == v[PC(v):n]
+//@   ensures BLD(v[:n]) == ""
+//@   uses valid_pos_a valid_pos_b pos_prefix firstplus_prefix idseq_prefix2 idseq_cut firstplus_bounds digend_bounds bld_tail_pre
+//@   hint VPOS(v)
+//@   hint VPOS(v[:n])
+//@   hint TAILPOS(v, PC(v))
+//@   hint TAILPOS(v[:n], PC(v))
+//@   hint PA(v[:n])
+//@   hint PB(v)
+//@   hint firstplus(v[:n], PC(v) + 1)
+//@   hint idseq(v, PC(v) + 1, n, true)
+//@   hint idseq(v[:n], PC(v) + 1, n, true)
+//@   hint PC(v[:n])
+//@   hint R3(v[:n])
+//@   trigger VALID(v), VALID(v[:n])
+//@   props C18
